@@ -22,7 +22,11 @@ pub fn factory(sources: Vec<MemSource>, dir: &Path) -> PipelineFactory {
 				for _ in 0..s.yields {
 					tokio::task::yield_now().await;
 				}
-				Ok(Box::new(s.clone()) as Box<dyn TilesReaderTrait>)
+				if s.plain {
+					Ok(Box::new(crate::memsource::PlainSource(s.clone())) as Box<dyn TilesReaderTrait>)
+				} else {
+					Ok(Box::new(s.clone()) as Box<dyn TilesReaderTrait>)
+				}
 			} else {
 				versatiles_container::get_reader(&filename).await
 			}
